@@ -34,7 +34,7 @@ COMPONENTS = {
     "stub": ["CAN backend (SimBus)", "can.Notifier", "time/queue in canopen.sdo.client", "device (StrictPdoDevice on RefSdoServer)"],
 }
 PROBES = ["prior-enabled", "source-attrs", "source-device", "source-od", "source-load_configuration", "cob-29bit", "no-rtr", "disabled", "event-driven",
-          "opt-sub3", "opt-sub5", "opt-sub6", "mapped-0", "mapped-8", "pdo-number>4", "saved-twice"]
+          "opt-sub3", "opt-sub5", "opt-sub6", "mapped-0", "mapped-8", "pdo-number>4", "saved-twice", "mapping-parameter-declared-as-array"]
 
 NUMBERS = (1, 2, 3, 4, 5, 64, 511, 512)
 MAPPABLE = [  # (index, sub, dtype, bits)
@@ -114,7 +114,8 @@ def build_od(pdos):
         mm = [v("n", st.map, 0, odm.UNSIGNED8, ("m", 0))]
         for k in range(1, 9):
             mm.append(v("e%d" % k, st.map, k, odm.UNSIGNED32, ("m", k)))
-        od.add_object(world.record("%s%d map" % (p["kind"], p["number"]), st.map, mm))
+        # the mapping parameter is a RECORD in most dictionaries; CiA 301 declares it as an ARRAY, and some EDS files do too
+        od.add_object((world.array if p.get("as_array") else world.record)("%s%d map" % (p["kind"], p["number"]), st.map, mm))
     return od
 
 
@@ -205,6 +206,9 @@ def scenario(ctx):
             for k in range(1, 9):
                 dv(("m", k), _word(target["map"][k - 1]) if k <= len(target["map"]) else 0)
             p["od_values"] = ov
+        p["as_array"] = ctx.choice(3, "map-object-is-array") == 1
+        if p["as_array"]:
+            ctx.probe("mapping-parameter-declared-as-array")
         pdos.append(p)
     od = build_od(pdos)
     w = world.ClientWorld(ctx, od=od)
